@@ -1346,7 +1346,8 @@ def p_filter_reads_own_object(rng, s, b):
             if not fits:
                 continue
             pp, o2 = rng.choice(fits)
-            o = ("prom", ("promise", own), list(pp))
+            # ... spelled as a global reference or, a third of the time, through the local "$_object"
+            o = ("prom", ("promise", own), list(pp)) if (rng.random() < 0.65 or not pp) else ("local", list(pp))
             lst[i] = ("cmp", keep, o2, o) if side == 3 else ("cmp", o, o2, keep)
             return "filter clause at depth %d compares $_item with the pipeline's own object (well typed)" % depth
     return None
